@@ -130,6 +130,23 @@ static Outcome runCase(const KV& c)
             A.apply(u, Au, mag);
             floorN = 1e3L * 2.2e-16L * IndepProblem::norm(mag, cfg.norm);
         }
+        // the norm the solver itself based its decision on (read through the friend hook) is the recomputed one:
+        // a stop test fed with a differently scaled residual (e.g. a wrong 4/3 factor) fails here even when the iterate
+        // happens to satisfy the tolerance anyway
+        {
+            const auto& rn = GMGPolarVerifAccess::residualNorms(*s);
+            if (!rn.empty() && (int)rn.size() == its + 1) {
+                const LD own = rn.back();
+                o.cls("solver_norm_compared");
+                if (fabsl(own - nrm) > 1e-6L * nrm + floorN) {
+                    char buf[240];
+                    snprintf(buf, sizeof buf, "the %sresidual norm the stop test used is %.12Lg, independently recomputed from solution(): %.12Lg", ex ? "extrapolated " : "",
+                             own, nrm);
+                    o.fail("stop_quantity_mismatch", buf);
+                    return o;
+                }
+            }
+        }
         const bool absOk = cfg.abs_tol > 0 && nrm <= (LD)cfg.abs_tol * (1 + 1e-6L) + floorN;
         const bool relOk = cfg.rel_tol > 0 && nrm <= (LD)cfg.rel_tol * nrm0 * (1 + 1e-6L) + floorN;
         o.cls("stop_verified");
